@@ -116,12 +116,21 @@ def c02(run):
     return R.finish(run, GAPS.get("C02", []))
 
 
+def trace_runs(run, h, kinds, quick=(60, 4), thorough=(1500, 6)):
+    nprog, nsched = Q(run, quick, thorough)
+    for kind in kinds:
+        for focus in ("", "racers", "reader"):
+            args = ["kind=" + kind, "seed=%d" % (run.seed + 50), "nprog=%d" % nprog, "nsched=%d" % nsched] + (["focus=" + focus] if focus else [])
+            R.trace_correspondence(run, h, "trace_%s_%s" % (kind, focus or "mix"), args)
+
+
 def c03(run):
     usable = common(run, ["CacheVerif.Props.C03"])
     h, err = R.build_harness(run, "sched")
     run.oblige("go build -overlay of the harness from the working tree (sched mode)", h is not None, err)
     if usable and h:
         sched_runs(run, h, ("map",), "", ("NONLIN", "PREFILL"), quick=(600, 6))
+        trace_runs(run, h, ("map",))
     lh = with_harness(run, "layout")
     if usable and lh:
         seq_map_runs(run, lh, None, kinds=("map",), quick=(16, 300))
@@ -134,6 +143,7 @@ def c04(run):
     run.oblige("go build -overlay of the harness from the working tree (sched mode)", h is not None, err)
     if usable and h:
         sched_runs(run, h, ("mapof",), "", ("NONLIN", "PREFILL"), quick=(600, 6))
+        trace_runs(run, h, ("mapof",))
     lh = with_harness(run, "layout")
     if usable and lh:
         seq_map_runs(run, lh, None, kinds=("mapof",), quick=(16, 300))
@@ -173,6 +183,7 @@ def c05(run):
     if usable and h:
         sched_runs(run, h, ALL_KINDS, "racers", ("FN", "NONLIN", "PREFILL"), quick=(50, 6))
         sched_runs(run, h, ALL_KINDS, "", ("FN",), quick=(40, 6), lin=False)
+        trace_runs(run, h, ("map", "mapof"), quick=(40, 4))
     if usable and lh:
         seq_map_runs(run, lh, None, quick=(10, 300))
     if usable and ch:
@@ -221,6 +232,7 @@ def c08(run):
     if usable and h:
         sched_runs(run, h, ALL_KINDS, "", ("SIZE", "COUNT", "CLEAR"), quick=(100, 6), lin=False)
         sched_runs(run, h, ALL_KINDS, "range", ("SIZE", "COUNT", "CLEAR"), quick=(30, 6), lin=False)
+        trace_runs(run, h, ("map", "mapof"), quick=(40, 4))
     return R.finish(run, GAPS.get("C08", []))
 
 
@@ -272,6 +284,7 @@ def c13(run):
         tags = ("DEADLOCK", "STEP-BUDGET", "HANG", "PANIC")
         for focus in ("", "range", "racers"):
             sched_runs(run, h, ALL_KINDS, focus, tags, quick=(50, 6), lin=False)
+        trace_runs(run, h, ("map", "mapof"))
     return R.finish(run, GAPS.get("C13", []))
 
 
@@ -304,6 +317,7 @@ def c16(run):
     h = with_harness(run, "sched")
     if usable and h:
         sched_runs(run, h, ALL_KINDS, "reader", ("SOLO-STUCK",), quick=(150, 6), lin=False)
+        trace_runs(run, h, ("map", "mapof"), quick=(40, 4))
     return R.finish(run, GAPS.get("C16", []))
 
 
